@@ -131,6 +131,16 @@ pub fn run_c20(cx: &Ctx) -> i32 {
     let t4 = wide::sweep(&wsp, wide::Mode::Shadow, 3);
     t2.count("wide_sweep_monitored_runs", t4.evaluations);
     t2.merge(t4);
+    // ... and the observable side of a commit: a cut that is not executed at all (an atomic
+    // construct lowered without its BeginAtomic/EndAtomic pair) leaves the state consistent - no
+    // monitor can object - but the alternatives created inside survive; every context with an atomic
+    // group, a possessive quantifier or a look-around is compared with the reference semantics
+    // (span and groups) on texts long enough for a give-back
+    let commit_space = Space::new().ctxfill(2, 1, &|c| c.name.contains("(?>") || c.name.contains("+□") || c.name.contains("*+") || c.name.contains("?+") || c.name.contains("(?=") || c.name.contains("(?!") || c.name.contains("(?<"));
+    let commit_cfg = RefCfg { check_span: true, check_groups: true, check_is_match: false, need_scoped: true, filter: None, shadow: false, alphabet: vec!['a', 'b'], max_len: if cx.quick() { 5 } else { 6 }, text_list: None, offset0_only: true, letter_names: false, casei: false };
+    let t5 = refsweep::run(cx, &commit_space, &commit_cfg);
+    t2.count("commit_observable_sweep_runs", t5.evaluations);
+    t2.merge(t5);
     let monitored = t2.evaluations;
     let shadow_checks = *t2.counters.get("shadow_checks").unwrap_or(&0);
     t.count("monitored_runs", monitored);
@@ -140,7 +150,7 @@ pub fn run_c20(cx: &Ctx) -> i32 {
         t,
         Finish {
             rule: format!(
-                "E2: breadth-first search (stateright) over all operation sequences {{Save(slot,value), Push, Pop, BeginAtomic, EndAtomic}} applied to the crate's real vm::State (hook H3) in lock-step with a whole-state-copy reference; configurations (slots, values, number of operations) {:?}; dedup key = real snapshot (slots, auxiliary stack, branches (pc,ix,nsave), undo log, nsave) + reference state, history-free; invariant in every state: every slot, the number of alternatives, the (pc,ix) returned by Pop and the count popped by EndAtomic agree; in the thorough tier each configuration is searched twice with different thread counts and the unique-state counts compared (the depth is part of the key, so a parallel search cannot lose a state). Program level: the same whole-copy discipline as a shadow monitor (hook H5) inside real vm::run executions of {} x texts up to length 3 x every offset: after every pop the live state must equal the copy taken at push time, every cut must leave the slots unchanged and exactly `count` alternatives; the same monitor during the tall sweep (long regular texts) and during a {}. distinct_nontrivial = unique states",
+                "E2: breadth-first search (stateright) over all operation sequences {{Save(slot,value), Push, Pop, BeginAtomic, EndAtomic}} applied to the crate's real vm::State (hook H3) in lock-step with a whole-state-copy reference; configurations (slots, values, number of operations) {:?}; dedup key = real snapshot (slots, auxiliary stack, branches (pc,ix,nsave), undo log, nsave) + reference state, history-free; invariant in every state: every slot, the number of alternatives, the (pc,ix) returned by Pop and the count popped by EndAtomic agree; in the thorough tier each configuration is searched twice with different thread counts and the unique-state counts compared (the depth is part of the key, so a parallel search cannot lose a state). Program level: the same whole-copy discipline as a shadow monitor (hook H5) inside real vm::run executions of {} x texts up to length 3 x every offset: after every pop the live state must equal the copy taken at push time, every cut must leave the slots unchanged and exactly `count` alternatives; the same monitor during the tall sweep (long regular texts) and during a {}; the observable side of a commit (a cut that is never executed leaves a consistent state): every context with an atomic group, possessive quantifier or look-around x fillers of <= 2 nodes x every text over [a, b] up to length 5 (6 thorough) compared with the reference semantics (span and groups). distinct_nontrivial = unique states",
                 configs,
                 sp.describe(),
                 wide::describe(&wsp, 3)
